@@ -39,6 +39,9 @@ THEOREMS = [
     "C12_cfg_geometry",
     "C12_required_productions",
     "C12_cfg_montepy",
+    "C12_cfg_extended",
+    "C12_required_productions_extended",
+    "C12_cfg_extended_montepy",
     "prefixes_nodup",
     "C12_dispatch_cell_exact",
     "C12_dispatch_data_exact",
@@ -888,8 +891,9 @@ def run(chk):
         "context-free derivability (C12_cfg) is not LALR acceptance: SLY resolves shift/reduce and reduce/reduce conflicts "
         "silently; the regular-expression lexer is not modelled; both are validated on the real parser by this run's oracle "
         "and by the U-lexclass comparison, not proved",
-        "C12_cfg covers cell cards, surface cards, number-list / MODE / material / thermal data cards; tally, FS, SDEF, "
-        "SI/SP/SB/DS with an option letter and FC/SC cards are validated on the real parser only",
+        "C12_cfg / C12_cfg_extended cover cell cards, surface cards, number-list / MODE / material (library-qualified "
+        "ZAIDs) / thermal / tally / FS / SDEF / lettered SI-SP-SB-DS data cards; FC/SC cards and materials that mix "
+        "ZAID forms are validated on the real parser only",
         "G restrictions applied by the generator: nothing between # and its operand; no line that BEGINS with # "
         "(vertical format); tabs are not generated; physical lines <= 80 columns",
     ]
